@@ -35,7 +35,7 @@ def tu_text(g):
     lines.append('extern "C" void %s_castf(const double* in, float* out) { vmap::cast_to<G, float>(in, out); }' % t)
     for k, (acc, ty, lo, hi) in enumerate(SUBPARTS.get(g.name, [])):
         n = hi - lo
-        if "Vector" in ty:
+        if "Eigen::" in ty:
             lines.append('extern "C" void %s_sub%d(const double* in, double* out) { smooth::Map<G> o(out); Eigen::Map<const %s> v(in); %s = v; }' % (t, k, ty, acc))
         else:
             lines.append('extern "C" void %s_sub%d(const double* in, double* out) { smooth::Map<G> o(out); smooth::Map<const %s> v(in); %s = v; }' % (t, k, ty, acc))
@@ -46,7 +46,7 @@ def bundle_tu():
     cpp, parts, rep = BUNDLE
     lines = ['#include "vmap.hpp"', "using G = %s;" % cpp]
     for k, (acc, ty, lo, hi) in enumerate(parts):
-        if "Vector" in ty:
+        if "Eigen::" in ty:
             lines.append('extern "C" void bpart%d(const double* in, double* out) { smooth::Map<G> o(out); Eigen::Map<const %s> v(in); %s = v; }' % (k, ty, acc))
         else:
             lines.append('extern "C" void bpart%d(const double* in, double* out) { smooth::Map<G> o(out); smooth::Map<const %s> v(in); %s = v; }' % (k, ty, acc))
